@@ -204,3 +204,24 @@ M("C11", "status-nonzero", PB, 'b"\\x00\\x00\\x00\\x00",  # Status UDINT', 'b"\\
 M("C11", "msg-insert-front", PC, "        self._msg += [self.service, req_path, self.request_data]", "        self._msg.insert(0, self.service)\n        self._msg += [req_path, self.request_data]", ["D11.5"])
 T("C11", "cpf-sum", PB, "        return b\"\".join(\n            [\n                b\"\\x00\\x00\\x00\\x00\",  # Interface Handle: shall be 0 for CIP\n                self._timeout,", "        return b\"\".join(\n            (\n                bytes(4),  # Interface Handle: shall be 0 for CIP\n                self._timeout,", more=[(PB, "                UINT.encode(len(message)),\n                message,\n            ]\n        )", "                UINT.encode(len(message)),\n                message,\n            )\n        )")])
 T("C11", "rename-common", PB, "        common = self._build_common_packet_format(msg, addr_data=target_cid)\n        header = self._build_header(\n            self._encap_command, len(common), session_id, context, option\n        )\n        return header + common", "        body = self._build_common_packet_format(msg, addr_data=target_cid)\n        hdr = self._build_header(\n            self._encap_command, len(body), session_id, context, option\n        )\n        return hdr + body")
+
+# ------------------------------------------------------------------ C09
+M("C09", "format-reserved", DT, "        4: 0b_000_000_10,  # 32-bit", "        4: 0b_000_000_11,  # 32-bit", ["D9.1"])
+M("C09", "attribute-bits", DT, '        "attribute_id": 0b_000_100_00,', '        "attribute_id": 0b_000_101_00,', ["D9.1"])
+M("C09", "threshold-100", DT, "            if _value <= 0xFF:\n                _value = USINT.encode(_value)", "            if _value <= 0x100:\n                _value = USINT.encode(_value)", ["D9.2"])
+M("C09", "uint-for-udint", DT, "            elif _value <= 0xFFFF_FFFF:\n                _value = UDINT.encode(_value)", "            elif _value <= 0xFFFF_FFFF:\n                _value = UINT.encode(_value)", ["D9.2"])
+M("C09", "pad-when-even", DT, "if padded and (len(_segment) + len(_value)) % 2:", "if padded and not (len(_segment) + len(_value)) % 2:", ["D9.3"])
+M("C09", "pad-after-value", DT, "        return _segment + _value\n", "        return _value + _segment\n", ["D9.3"])
+M("C09", "symbolic-len-after-pad", DT, "        _data = segment.data.encode()\n        _len = len(_data)\n        if _len % 2:\n            _data += b\"\\x00\"\n        return USINT.encode(_segment) + USINT.encode(_len) + _data", "        _data = segment.data.encode()\n        if len(_data) % 2:\n            _data += b\"\\x00\"\n        _len = len(_data)\n        return USINT.encode(_segment) + USINT.encode(_len) + _data", ["D9.3"])
+M("C09", "prefix-bytes", DT, "_len = USINT.encode(len(path) // 2)", "_len = USINT.encode(len(path))", ["D9.3"])
+M("C09", "member-not-member-id", PU, 'segments += [LogicalSegment(int(idx), "member_id") for idx in index]', 'segments += [LogicalSegment(int(idx), "member") for idx in index]', ["D9.4", "D9.5"])
+M("C09", "instance-without-program-test", PU, "            use_instance_ids\n            and not base.startswith(\"Program:\")\n            and tag_info.get(\"instance_id\")", "            use_instance_ids\n            and tag_info.get(\"instance_id\")", ["D9.5"])
+M("C09", "attribute-before-instance", PU, '        LogicalSegment(class_code, "class_id"),\n        LogicalSegment(instance, "instance_id"),\n    ]\n\n    if attribute:', '        LogicalSegment(instance, "instance_id"),\n        LogicalSegment(class_code, "class_id"),\n    ]\n\n    if attribute:', ["D9.5"])
+M("C09", "ext-link-bit-always", DT, "        if len(link) > 1:\n            port |= cls.extended_link\n            _len = USINT.encode(len(link))\n        else:\n            _len = b\"\"", "        port |= cls.extended_link\n        if len(link) > 1:\n            _len = USINT.encode(len(link))\n        else:\n            _len = b\"\"", ["D9.6"])
+M("C09", "symbol-class-6c", PU, "LogicalSegment(ClassCode.symbol_object, \"class_id\"),\n                LogicalSegment(tag_info[\"instance_id\"], \"instance_id\"),", "LogicalSegment(ClassCode.template_object, \"class_id\"),\n                LogicalSegment(tag_info[\"instance_id\"], \"instance_id\"),", ["D9.5"])
+M("C09", "reversed-index", PU, 'segments += [LogicalSegment(int(idx), "member_id") for idx in index]', 'segments += [LogicalSegment(int(idx), "member_id") for idx in reversed(index)]', ["D9.5"])
+M("C09", "padded-false", DT, "class PADDED_EPATH(EPATH):\n    padded = True", "class PADDED_EPATH(EPATH):\n    padded = False", ["D9.3"])
+M("C09", "data-segment-type", DT, "    segment_type = 0b_100_00000\n    extended_symbol = 0b_000_10001", "    segment_type = 0b_100_00000\n    extended_symbol = 0b_000_10000", ["D9.1"])
+T("C09", "hex-thresholds", DT, "            if _value <= 0xFF:", "            if _value <= 255:")
+T("C09", "shift-prefix", DT, "_len = USINT.encode(len(path) // 2)", "_len = USINT.encode(len(path) >> 1)")
+T("C09", "format-decimal", DT, "        4: 0b_000_000_10,  # 32-bit", "        4: 2,  # 32-bit")
